@@ -55,7 +55,7 @@ def step (s : St) (line : String) : St × String :=
   | ["dropy"] => let (s', r) := dropElement s .youngest
                  finish s s' ("drop " ++ (match r with | some b => Hex.ofBytes (b.takeWhile (· ≠ 0)) | none => "null")) []
   | ["len"] => finish s s s!"len {queueLen s}" []
-  | ["disc"] => finish s (disconnect s) "ok" []
+  | ["disc"] => finish s (disconnectOnce s) "ok" []
   | _ => (s, "= bad-op")
 
 def run (i o : IO.FS.Stream) : IO Unit := runStateful ({} : St) step i o
